@@ -140,6 +140,12 @@ func genC15(p *Plan, r *RNG) {
 
 // genC18: the densest yield configuration over the server-world histories.
 func genC18(p *Plan, r *RNG) {
+	if r.Chance(1, 14) {
+		// two parties that each wait to write on the one stream between them (no stalls added:
+		// the windows are the delay)
+		genC14Backpressure(p, r)
+		return
+	}
 	if r.Chance(1, 3) {
 		genC15(p, r)
 	} else if r.Chance(1, 4) {
